@@ -376,6 +376,12 @@ def second_value(ep):
     return -1000.5 - ep
 
 
+def second_name(cfg, i):
+    """the name the user gave the second metric: any string is a name - also one that the evaluator object happens
+    to use for an attribute of its own ("last", "period", "epochs"); records are looked up by subscript / get_value"""
+    return ("a", "last", "a", "period", "epochs")[(i + cfg["epochs"] + cfg.get("startEp", 0)) % 5]
+
+
 def build_callbacks(cfg, R, plan, nn_state, tmpdir):
     """cfg['cbs'] descriptors -> real callback objects (list order preserved)."""
     objs = [None] * len(cfg["cbs"])
@@ -416,7 +422,7 @@ def build_callbacks(cfg, R, plan, nn_state, tmpdir):
                 metrics = {"m": metric}
                 if has_second(cfg, i):
                     # a second metric registered AFTER "m" whose name sorts BEFORE it, with unmistakable values
-                    metrics["a"] = lambda nn, **kw: second_value(R.cur_ep)
+                    metrics[second_name(cfg, i)] = lambda nn, **kw: second_value(R.cur_ep)
                 slot.append(common.api_call(MetricEvaluator, EVAL_ORDER,
                                             dict(period=d["period"], metrics=metrics, verbose=bool(d.get("verbose")),
                                                  log=os.path.join(tmpdir, "eval%d.csv" % i) if d.get("log") else None,
